@@ -184,7 +184,8 @@ def r1_panic_reachability(ctx):
                 idx = counts.get(base, 0)
                 counts[base] = idx + 1
                 key = "%s#%d" % (base, idx)
-                safe = c15_safe.lookup(root, kind, detail, idx)
+                conds = idioms.dominating_conditions(b, i) if c15_safe.guard_for(root, kind, detail, idx) else None
+                safe = c15_safe.lookup(root, kind, detail, idx, conds)
                 if not safe and kind == "assert" and index_add_is_safe(b, i):
                     r.ok(key, cfg.loc(b, i), "usize addition of collection sizes/indices and small constants (each <= isize::MAX): cannot overflow", work=1)
                     continue
